@@ -208,6 +208,50 @@ func loadOnce(b []byte, check J) (obs J, id string) {
 	return obs, hex.EncodeToString(sum[:8])
 }
 
+// overlappingLoads: Load, Load again, and only then read both data tar streams (interleaved file by file)
+func overlappingLoads(b []byte) (obs J) {
+	obs = J{"ok": false, "tar1": []interface{}{}, "tar2": []interface{}{}, "panic": false}
+	defer func() {
+		if r := recover(); r != nil {
+			obs["panic"] = true
+		}
+	}()
+	d1, err1 := deb.Load(bytes.NewReader(b), "/tmp/one.deb")
+	if err1 != nil {
+		return
+	}
+	defer d1.Close()
+	d2, err2 := deb.Load(bytes.NewReader(b), "/tmp/two.deb")
+	if err2 != nil {
+		return
+	}
+	defer d2.Close()
+	t1, t2 := []interface{}{}, []interface{}{}
+	done1, done2 := false, false
+	for i := 0; i < 10000 && !(done1 && done2); i++ {
+		if !done1 {
+			h, err := d1.Data.Next()
+			if err != nil {
+				done1 = true
+			} else {
+				c, _ := io.ReadAll(d1.Data)
+				t1 = append(t1, J{"name": h.Name, "content": BB(c)})
+			}
+		}
+		if !done2 {
+			h, err := d2.Data.Next()
+			if err != nil {
+				done2 = true
+			} else {
+				c, _ := io.ReadAll(d2.Data)
+				t2 = append(t2, J{"name": h.Name, "content": BB(c)})
+			}
+		}
+	}
+	obs["ok"], obs["tar1"], obs["tar2"] = true, t1, t2
+	return
+}
+
 func execDeb(vec J, out *Writer) {
 	switch vec["k"].(string) {
 	case "deb":
@@ -240,7 +284,11 @@ func execDeb(vec J, out *Writer) {
 			}
 			ids = append(ids, J{"id": id, "ok": obs["ok"], "sig_ok": sigOK, "signer": signer, "pkg": B(pkg)})
 		}
-		out.Put(J{"ev": "deb", "in": vec, "built": true, "len": len(b.Bytes), "reps": ids, "first": first})
+		rec := J{"ev": "deb", "in": vec, "built": true, "len": len(b.Bytes), "reps": ids, "first": first}
+		if check == nil {
+			rec["overlap"] = overlappingLoads(b.Bytes)
+		}
+		out.Put(rec)
 	case "debraw":
 		// damaged .deb, described by a recipe (base package + one operation) so that vectors stay small;
 		// loaded several times under a watchdog
